@@ -31,14 +31,16 @@ Definition value_ok (t : ftype) (v : jval) : bool :=
   end.
 Definition jget (j : json) (k : N) : option jval :=
   match find (fun p => N.eqb (fst p) k) j with Some p => Some (snd p) | None => None end.
+Definition is_null (v : jval) : bool := match v with JNull => true | _ => false end.
 Definition field_ok (j : json) (f : field) : bool :=
   match jget j (f_short f) with
-  | Some v => value_ok (f_type f) v                  (* a present key must carry a value of the type: null is not *)
+  | Some v => (f_nullable f && is_null v)              (* an explicit null for a nullable field *)
+              || value_ok (f_type f) v                 (* else a present key must carry a value of the type *)
   | None => f_nullable f || f_default f
   end.
-(* validate_json_for_entity: no json at all is accepted *)
+(* validate_json_for_entity: a row without json content carries no field at all *)
 Definition conform (fields : list field) (j : option json) : bool :=
-  match j with None => true | Some o => forallb (field_ok o) fields end.
+  forallb (field_ok (match j with Some o => o | None => [] end)) fields.
 
 Definition dmodel := list (entity * list field).      (* entities of the receiver's data model *)
 Definition fields_of (dm : dmodel) (e : entity) : option (list field) :=
@@ -121,7 +123,12 @@ Definition lookup_node (st : store) (id : uid) : option rnode :=
 Definition lww_pass (ex x : rnode) : bool :=
   negb (Z.ltb (n_mdate x) (n_mdate ex)) &&
   negb (Z.eqb (n_mdate x) (n_mdate ex) && N.leb (n_sig x) (n_sig ex)).
+(* ... and a version not newer than the one a stored deletion record of that id names is not
+   requested either (any room, any entity) *)
+Definition tombstoned (st : store) (x : rnode) : bool :=
+  existsb (fun d => N.eqb (nd_id d) (n_id x) && Z.leb (n_mdate x) (nd_mdate d)) (s_ndels st).
 Definition requested (st : store) (x : rnode) : bool :=
+  negb (tombstoned st x) &&
   match lookup_node st (n_id x) with Some ex => lww_pass ex x | None => true end.
 
 Definition accept_node (rooms : list room) (dm : dmodel) (R : uid) (st : store) (x : rnode) : bool :=
@@ -165,32 +172,35 @@ Definition put_edge (st : store) (x : redge) : store :=
      s_ndels := s_ndels st; s_edels := s_edels st |}.
 (* the AddEdges arm: the author's own-rows right for the source entity at the edge's date, in the
    room named by the request; nothing else *)
-Definition edge_ok (r : room) (x : redge) : bool :=
+Definition edge_right (r : room) (x : redge) : bool :=
   match e_ent x with
   | Some en => can r (e_author x) en (e_cdate x) MutateSelf
   | None => false
   end.
+(* GraphDatabase::add_edges: the source must be a row of that entity stored in the room of the call *)
+Definition src_in_room (nodes : list rnode) (src : uid) (R : uid) (en : entity) : bool :=
+  existsb (fun n => N.eqb (n_id n) src && opt_eqb N.eqb (n_room n) (Some R) && oent_eqb (n_ent n) (Some en)) nodes.
+Definition edge_ok (r : room) (R : uid) (st : store) (x : redge) : bool :=
+  match e_ent x with
+  | Some en => src_in_room (s_nodes st) (e_src x) R en
+  | None => false
+  end && edge_right r x.
 Definition step_edges (rooms : list room) (R : uid) (st : store) (batch : list redge) : store * list Z :=
   if forallb e_sig_ok batch then
     match find_room rooms R with
     | None => (st, [2])                                        (* Err(UnknownRoom) for the whole call *)
     | Some r =>
-        let acc := filter (edge_ok r) batch in
-        let rej := filter (fun x => negb (edge_ok r x)) batch in
+        let acc := filter (edge_ok r R st) batch in
+        let rej := filter (fun x => negb (edge_ok r R st x)) batch in
         (fold_left put_edge acc st, 0 :: counted (sortz (map (fun x => zn (e_src x)) rej)))
     end
   else (st, [1]).
 
 (* ------------------------------------------------------------------ node tombstones *)
-(* with_previous_authors keys its map by row id: of several tombstones for one id the last one stays *)
-Fixpoint dedup_last (l : list rndel) : list rndel :=
-  match l with
-  | [] => []
-  | d :: t => if existsb (fun d' => N.eqb (nd_id d') (nd_id d)) t then dedup_last t else d :: dedup_last t
-  end.
-(* validate_node_deletions: the right for the entity NAMED IN THE TOMBSTONE, in the room named in
-   the tombstone, at the deletion date; all-rows right iff some stored row with that id (in any
-   room) has another author *)
+(* validate_node_deletions: the right for the entity named in the tombstone, in the room named in
+   the tombstone, at the deletion date; all-rows right iff the stored row with that id (in any
+   room) has another author.  with_previous_authors drops an entry that names another entity than
+   the stored row. *)
 Definition ndel_ok (rooms : list room) (st : store) (d : rndel) : bool :=
   match nd_ent d with
   | None => false
@@ -198,26 +208,33 @@ Definition ndel_ok (rooms : list room) (st : store) (d : rndel) : bool :=
       match find_room rooms (nd_room d) with
       | None => false
       | Some r =>
-          let t := match lookup_node st (nd_id d) with
-                   | Some ex => needed (N.eqb (n_author ex) (nd_author d))
-                   | None => MutateSelf
-                   end in
-          can r (nd_author d) en (nd_date d) t
+          match lookup_node st (nd_id d) with
+          | Some ex => oent_eqb (n_ent ex) (nd_ent d) &&
+                       can r (nd_author d) en (nd_date d) (needed (N.eqb (n_author ex) (nd_author d)))
+          | None => can r (nd_author d) en (nd_date d) MutateSelf
+          end
       end
   end.
 Definition same_ndel_pk (a b : rndel) : bool :=
   N.eqb (nd_room a) (nd_room b) && Z.eqb (nd_date a) (nd_date b) && N.eqb (nd_id a) (nd_id b) && oent_eqb (nd_ent a) (nd_ent b).
-(* NodeDeletionEntry::delete_all: DELETE FROM _node WHERE room_id=? AND id=? ; INSERT OR REPLACE the entry *)
+(* NodeDeletionEntry::delete_all: DELETE FROM _node WHERE room_id=? AND id=? AND mdate<=? ;
+   INSERT OR REPLACE the entry *)
 Definition node_hit (d : rndel) (y : rnode) : bool :=
-  opt_eqb N.eqb (n_room y) (Some (nd_room d)) && N.eqb (n_id y) (nd_id d).
+  opt_eqb N.eqb (n_room y) (Some (nd_room d)) && N.eqb (n_id y) (nd_id d) && Z.leb (n_mdate y) (nd_mdate d).
 Definition apply_ndel (st : store) (d : rndel) : store :=
   {| s_nodes := filter (fun y => negb (node_hit d y)) (s_nodes st);
      s_edges := s_edges st;
      s_ndels := d :: filter (fun y => negb (same_ndel_pk y d)) (s_ndels st);
      s_edels := s_edels st |}.
+(* GraphDatabaseService::delete_nodes cuts the answer into batches with at most one entry per row id
+   (the k-th entry of an id goes to the k-th batch) and processes the batches one after the other,
+   each validated against the rows held at that moment.  Entries of different ids do not influence
+   each other (verdict and effect of an entry depend on rows and log entries of its own id only), so
+   this is one entry at a time, in the order received. *)
+Definition one_ndel (rooms : list room) (st : store) (d : rndel) : store :=
+  if ndel_ok rooms st d then apply_ndel st d else st.
 Definition step_ndels (rooms : list room) (st : store) (batch : list rndel) : store * list Z :=
-  if forallb nd_sig_ok batch then
-    (fold_left apply_ndel (filter (ndel_ok rooms st) (dedup_last batch)) st, [0])
+  if forallb nd_sig_ok batch then (fold_left (one_ndel rooms) batch st, [0])
   else (st, [1]).
 
 (* ------------------------------------------------------------------ edge tombstones *)
